@@ -86,4 +86,5 @@ let () =
                with Bad | Failure _ | Invalid_argument _ -> "fail:unreadable-observation") in
           Mlutil.print_model (List.map obs_token m) verdict
         end
+    | "asm15", _ -> Mlutil.asm_case outs
     | _ -> Mlutil.print_model ["UNKNOWN-KIND"] "ok")
